@@ -387,6 +387,8 @@ to_internal_location(struct hwloc_internal_location_s *iloc,
     }
     iloc->location.object.gp_index = location->location.object->gp_index;
     iloc->location.object.type = location->location.object->type;
+    /* also fill the cached pointer, this location may be stored as a new initiator of a target whose cache is valid */
+    iloc->location.object.obj = location->location.object;
     return 0;
   default:
     errno = EINVAL;
